@@ -99,6 +99,8 @@ Bounded == (Done /\ ~o.refused) =>
 \* well above the table or exactly at the top tabulated level (the PTF case), Eval answers from the table alone - the top
 \* level, given in metres with the library's own factor, is a tabulated level
 Ceilings == {"above_table", "table_top"}
+\* StateIsAValue: Eval is a function of (level, mass, phase); the state record a caller hands over is read, not written -
+\* a symbolic mass stays symbolic, so that the same state put to another table means THAT table's extreme mass
 \* (a numeric mass is a number: float, Python int, numpy integer or numpy float - MassForms - mean the same mass)
 MassForms == {"float", "int", "np.int64", "np.float64"}
 SymbolicMass == (Done /\ c.m2 \in {100, 101}) => o = EvalOut([c EXCEPT !.m2 = IF c.m2 = 100 THEN 0 ELSE 4])
